@@ -74,8 +74,8 @@ def _sess_init(**kw):
 STREAMS = {}
 
 
-def _def_stream(name, msgs, queue_bundle=False):
-    STREAMS[name] = dict(msgs=msgs, queue_bundle=queue_bundle)
+def _def_stream(name, msgs, queue_bundle=False, cfg=None):
+    STREAMS[name] = dict(msgs=msgs, queue_bundle=queue_bundle, cfg=cfg or {})
 
 
 _CONTACT = dict(type='contact', flags=0)
@@ -117,6 +117,29 @@ _def_stream('m_ack', [
 ], queue_bundle=True)
 _def_stream('m_ka_tail', [_CONTACT, _sess_init(), _KA])
 _def_stream('m_zero', [_CONTACT, _sess_init(nodeid=b''), *_transfer(1, [b'']), *_transfer(2, [b'']), _KA])
+
+# segments as large as the receiver's own segment MRU allows (small MRU configured), with and without the Transfer Length item
+_def_stream('m_mru', [
+    _CONTACT, _sess_init(),
+    *_transfer(1, [b'M' * 64]),
+    _KA,
+    *_transfer(2, [b'n' * 49, b'o' * 64, b'p' * 63]),
+    dict(type='XFER_SEGMENT', flags=tw.FLAG_START | tw.FLAG_END, transfer_id=3, ext=[], data=b'q' * 64),
+    dict(type='XFER_SEGMENT', flags=tw.FLAG_START, transfer_id=4, ext=[], data=b'r' * 62),
+    dict(type='XFER_SEGMENT', flags=tw.FLAG_END, transfer_id=4, data=b's' * 64),
+    _KA,
+], cfg=dict(segment_size_mru=64))
+# reserved flag bits in XFER_SEGMENT / XFER_ACK (a receiver ignores them; the framing depends on START only)
+_def_stream('m_flags', [
+    _CONTACT, _sess_init(),
+    dict(type='XFER_SEGMENT', flags=tw.FLAG_START | 0x04, transfer_id=1, ext=[tw.transfer_length_ext(5)], data=b'ab'),
+    dict(type='XFER_SEGMENT', flags=0x80, transfer_id=1, data=b'c'),
+    dict(type='XFER_SEGMENT', flags=tw.FLAG_END | 0x10 | 0x40, transfer_id=1, data=b'de'),
+    _KA,
+    dict(type='XFER_SEGMENT', flags=tw.FLAG_START | tw.FLAG_END | 0x08, transfer_id=2, ext=[tw.transfer_length_ext(3)], data=b'xyz'),
+    dict(type='XFER_ACK', flags=0x84, transfer_id=9, length=1),
+    _KA,
+])
 
 # long streams
 _def_stream('l_big', [
@@ -194,7 +217,7 @@ def cases(tier, seed):
         for role in (('passive', 'active') if thorough else ('passive',)):
             out += _compositions_mask_cases(name, role)
     # all single cuts (and double cuts) of medium streams
-    for name in ('m_basic', 'm_ext', 'm_ack', 'm_ka_tail', 'm_zero'):
+    for name in ('m_basic', 'm_ext', 'm_ack', 'm_ka_tail', 'm_zero', 'm_mru', 'm_flags'):
         nbytes = len(stream_bytes(name))
         for role in ('passive', 'active'):
             singles = [(cut,) for cut in range(1, nbytes)]
@@ -238,15 +261,15 @@ def cases(tier, seed):
 
 # --------------------------------------------------------------------- running
 
-def _make_endpoint(role, queue_bundle):
+def _make_endpoint(role, queue_bundle, cfg=None):
     from vf.world.sim import Sim
     from vf import tcpcl_harness as th
     sim = Sim(seed=0, policy='eager')
     sock_a, sock_b = sim.net.tcp_pair()
     if role == 'passive':
-        end = th.Endpoint(sim, 'E', th.make_config('dtn://under-test/'), sock_b, passive=True, peer_addr=('10.0.0.1', 40001))
+        end = th.Endpoint(sim, 'E', th.make_config('dtn://under-test/', **(cfg or {})), sock_b, passive=True, peer_addr=('10.0.0.1', 40001))
     else:
-        end = th.Endpoint(sim, 'E', th.make_config('dtn://under-test/'), sock_a, passive=False, peer_addr=('10.0.0.2', 4556))
+        end = th.Endpoint(sim, 'E', th.make_config('dtn://under-test/', **(cfg or {})), sock_a, passive=False, peer_addr=('10.0.0.2', 4556))
     end.start()
     if queue_bundle:
         import dbus
@@ -266,7 +289,7 @@ def run_framing(name, cuts, role, keep_detail=False):
         slices.append((prev, end))
         prev = end
 
-    sim, end = _make_endpoint(role, spec['queue_bundle'])
+    sim, end = _make_endpoint(role, spec['queue_bundle'], spec.get('cfg'))
     hdl = end.hdl
     handed = []
     step_box = [0]
@@ -374,7 +397,7 @@ def _run_loop_case(case):
     expected, _, _ = tw.parse_stream(data)
     sim = Sim(seed=case['seed'], policy=case['policy'])
     sock_a, sock_b = sim.net.tcp_pair()
-    end = th.Endpoint(sim, 'E', th.make_config('dtn://under-test/'), sock_b, passive=True, peer_addr=('10.0.0.1', 40001))
+    end = th.Endpoint(sim, 'E', th.make_config('dtn://under-test/', **STREAMS[name].get('cfg', {})), sock_b, passive=True, peer_addr=('10.0.0.1', 40001))
     end.start()
     handed = []
     orig = end.hdl.recv_message
